@@ -808,6 +808,10 @@ func (runInfo *runInfoStruct) runDeferStmt(stmt *ast.DeferStmt) {
 	if runInfo.err != nil {
 		return
 	}
+	// the arguments are those at the defer statement
+	for i := range args {
+		args[i] = detachValue(args[i])
+	}
 
 	runInfo.defers = append(runInfo.defers, capturedFunc{
 		fn:        f,
